@@ -5,8 +5,15 @@
 import GenM.Util
 import Mathlib.Tactic.FieldSimp
 import Mathlib.Tactic.Ring
+import Mathlib.Tactic.FinCases
+import Mathlib.Logic.Equiv.Fin.Basic
+import Lib.SqrtFilter
 
 set_option maxHeartbeats 8000000
+set_option linter.unusedSimpArgs false
+set_option linter.unusedTactic false
+set_option linter.unreachableTactic false
+set_option linter.unnecessarySeqFocus false
 open Gen
 
 namespace C10
@@ -157,5 +164,91 @@ theorem sqrt_correct_1_1 (Rs H W : ℝ) (hR : Rs ≠ 0) :
     · first
       | exact add_nonneg (mul_self_nonneg _) (mul_self_nonneg _)
       | exact add_nonneg (sq_nonneg _) (sq_nonneg _)
+
+/-! ### square-root measurement update, 3 states, 2 measurements, with `ca.qr` replaced by its contract
+    (`Gen.util.sqrt_correct_qr_3_2`: the real routine, the one ca.qr call swapped for inputs qrQ, qrR and the matrix handed to it
+    exposed as qr_arg).  Under QᵀQ = 1 and Q·R = qr_arg, with an invertible innovation factor:
+    Ss Ssᵀ = H P Hᵀ + Rs Rsᵀ,  K S = P Hᵀ,  W⁺W⁺ᵀ = (1 − K H) P,  P − W⁺W⁺ᵀ ⪰ 0  — for EVERY Rs, H, W. -/
+section sqrt_correct_qr
+open Matrix
+open Gen.util.sqrt_correct_qr_3_2
+
+def lowerPart {k : ℕ} (W : Fin k → Fin k → ℝ) : Matrix (Fin k) (Fin k) ℝ := Matrix.of fun i j => if j ≤ i then W i j else 0
+def upperPart {k : ℕ} (R : Fin k → Fin k → ℝ) : Matrix (Fin k) (Fin k) ℝ := Matrix.of fun i j => if i ≤ j then R i j else 0
+
+@[simp] theorem e_inl0 : (finSumFinEquiv (Sum.inl (0 : Fin 2)) : Fin (2 + 3)) = (0 : Fin 5) := by decide
+@[simp] theorem e_inl1 : (finSumFinEquiv (Sum.inl (1 : Fin 2)) : Fin (2 + 3)) = (1 : Fin 5) := by decide
+@[simp] theorem e_inr0 : (finSumFinEquiv (Sum.inr (0 : Fin 3)) : Fin (2 + 3)) = (2 : Fin 5) := by decide
+@[simp] theorem e_inr1 : (finSumFinEquiv (Sum.inr (1 : Fin 3)) : Fin (2 + 3)) = (3 : Fin 5) := by decide
+@[simp] theorem e_inr2 : (finSumFinEquiv (Sum.inr (2 : Fin 3)) : Fin (2 + 3)) = (4 : Fin 5) := by decide
+
+variable (Rs : Fin 2 → Fin 2 → ℝ) (H : Fin 2 → Fin 3 → ℝ) (W : Fin 3 → Fin 3 → ℝ) (qrQ qrR : Fin 5 → Fin 5 → ℝ)
+
+/-- qrRᵀ and the transposed QR argument, re-indexed by (measurement ⊕ state) -/
+def Lb (qrR : Fin 5 → Fin 5 → ℝ) : Matrix (Fin 2 ⊕ Fin 3) (Fin 2 ⊕ Fin 3) ℝ := ((upperPart qrR)ᵀ).submatrix finSumFinEquiv finSumFinEquiv
+def Bb (A : Matrix (Fin 5) (Fin 5) ℝ) : Matrix (Fin 2 ⊕ Fin 3) (Fin 2 ⊕ Fin 3) ℝ := (Aᵀ).submatrix finSumFinEquiv finSumFinEquiv
+
+/-- G: the lower-left block of qrRᵀ (K is G Ss⁻¹) -/
+def Gblk (qrR : Fin 5 → Fin 5 → ℝ) : Matrix (Fin 3) (Fin 2) ℝ := Matrix.of fun i j => qrR (Fin.castAdd 3 j) (Fin.natAdd 2 i)
+
+theorem sqrt_correct_qr_3_2 (hQ : (Matrix.of qrQ)ᵀ * Matrix.of qrQ = 1)
+    (hQR : Matrix.of qrQ * upperPart qrR = qr_arg_mat Rs H W qrQ qrR) (h0 : qrR 0 0 ≠ 0) (h1 : qrR 1 1 ≠ 0) :
+    let P := lowerPart W * (lowerPart W)ᵀ
+    let Hm : Matrix (Fin 2) (Fin 3) ℝ := Matrix.of H
+    let S := Hm * P * Hmᵀ + lowerPart Rs * (lowerPart Rs)ᵀ
+    Ss_mat Rs H W qrQ qrR * (Ss_mat Rs H W qrQ qrR)ᵀ = S
+    ∧ K_mat Rs H W qrQ qrR * S = P * Hmᵀ
+    ∧ Wp_mat Rs H W qrQ qrR * (Wp_mat Rs H W qrQ qrR)ᵀ = (1 - K_mat Rs H W qrQ qrR * Hm) * P
+    ∧ (P - Wp_mat Rs H W qrQ qrR * (Wp_mat Rs H W qrQ qrR)ᵀ).PosSemidef := by
+  intro P Hm S
+  have hA : ∀ (i : Fin 3) (j : Fin 2), qr_arg_mat Rs H W qrQ qrR (finSumFinEquiv (m := 2) (n := 3) (Sum.inl j)) (finSumFinEquiv (m := 2) (n := 3) (Sum.inr i)) = 0 := by
+    intro i j; fin_cases i <;> fin_cases j <;> simp only [e_inl0, e_inl1, e_inr0, e_inr1, e_inr2]
+    all_goals simp only [qr_arg_mat, Matrix.of_apply, Matrix.cons_val', Matrix.cons_val_zero, Matrix.cons_val_one, Matrix.cons_val, Matrix.cons_val_fin_one]
+    all_goals simp [cas_defs, cas_real]
+  have hR : ∀ (i : Fin 3) (j : Fin 2), upperPart qrR (finSumFinEquiv (m := 2) (n := 3) (Sum.inr i)) (finSumFinEquiv (m := 2) (n := 3) (Sum.inl j)) = 0 := by
+    intro i j; fin_cases i <;> fin_cases j <;> simp [upperPart]
+  obtain ⟨a, c, d⟩ := SqrtFilter.flat (M := Fin 2) (N := Fin 3) finSumFinEquiv _ _ _ hQ hQR hA hR
+  -- identify the blocks with the generated outputs / the inputs
+  have eSs : (Lb qrR).toBlocks₁₁ = Ss_mat Rs H W qrQ qrR := by
+    ext i j; fin_cases i <;> fin_cases j <;> simp [Lb, Ss_mat, toBlocks₁₁, upperPart, cas_defs, cas_real]
+  have eWp : (Lb qrR).toBlocks₂₂ = Wp_mat Rs H W qrQ qrR := by
+    ext i j; fin_cases i <;> fin_cases j <;> simp [Lb, Wp_mat, toBlocks₂₂, upperPart, cas_defs, cas_real]
+  have eG : (Lb qrR).toBlocks₂₁ = Gblk qrR := by
+    ext i j; fin_cases i <;> fin_cases j <;> simp [Lb, Gblk, toBlocks₂₁, upperPart] <;> rfl
+  have eRs : (Bb (qr_arg_mat Rs H W qrQ qrR)).toBlocks₁₁ = lowerPart Rs := by
+    ext i j
+    simp only [Bb, toBlocks₁₁, Matrix.of_apply, submatrix_apply, transpose_apply]
+    fin_cases i <;> fin_cases j <;> simp only [e_inl0, e_inl1]
+    all_goals simp only [qr_arg_mat, Matrix.of_apply, Matrix.cons_val', Matrix.cons_val_zero, Matrix.cons_val_one, Matrix.cons_val, Matrix.cons_val_fin_one]
+    all_goals simp [lowerPart, cas_defs, cas_real]
+  have eW : (Bb (qr_arg_mat Rs H W qrQ qrR)).toBlocks₂₂ = lowerPart W := by
+    ext i j
+    simp only [Bb, toBlocks₂₂, Matrix.of_apply, submatrix_apply, transpose_apply]
+    fin_cases i <;> fin_cases j <;> simp only [e_inr0, e_inr1, e_inr2]
+    all_goals simp only [qr_arg_mat, Matrix.of_apply, Matrix.cons_val', Matrix.cons_val_zero, Matrix.cons_val_one, Matrix.cons_val, Matrix.cons_val_fin_one]
+    all_goals simp [lowerPart, cas_defs, cas_real]
+  have eC : (Bb (qr_arg_mat Rs H W qrQ qrR)).toBlocks₁₂ = Hm * lowerPart W := by
+    ext i j
+    simp only [Bb, toBlocks₁₂, Matrix.of_apply, submatrix_apply, transpose_apply]
+    fin_cases i <;> fin_cases j <;> simp only [e_inl0, e_inl1, e_inr0, e_inr1, e_inr2]
+    all_goals simp only [qr_arg_mat, Matrix.of_apply, Matrix.cons_val', Matrix.cons_val_zero, Matrix.cons_val_one, Matrix.cons_val, Matrix.cons_val_fin_one]
+    all_goals simp [Hm, lowerPart, cas_defs, cas_real, Matrix.mul_apply, Fin.sum_univ_succ]
+    all_goals try ring
+  change (Lb qrR).toBlocks₁₁ * (Lb qrR).toBlocks₁₁ᵀ = (Bb _).toBlocks₁₂ * (Bb _).toBlocks₁₂ᵀ + (Bb _).toBlocks₁₁ * (Bb _).toBlocks₁₁ᵀ at a
+  change (Lb qrR).toBlocks₂₁ * (Lb qrR).toBlocks₁₁ᵀ = (Bb _).toBlocks₂₂ * (Bb _).toBlocks₁₂ᵀ at c
+  change (Lb qrR).toBlocks₂₁ * (Lb qrR).toBlocks₂₁ᵀ + (Lb qrR).toBlocks₂₂ * (Lb qrR).toBlocks₂₂ᵀ = (Bb _).toBlocks₂₂ * (Bb _).toBlocks₂₂ᵀ at d
+  rw [eSs, eRs, eC] at a
+  rw [eG, eSs, eW, eC] at c
+  rw [eG, eWp, eW] at d
+  have hK : K_mat Rs H W qrQ qrR * Ss_mat Rs H W qrQ qrR = Gblk qrR := by
+    ext i j; fin_cases i <;> fin_cases j <;>
+      simp [K_mat, Ss_mat, Gblk, cas_defs, cas_real, Matrix.mul_apply, Fin.sum_univ_succ] <;> field_simp <;> ring
+  obtain ⟨g1, g2, g3⟩ := SqrtFilter.gain _ _ _ _ _ _ c d hK
+  have eS : Ss_mat Rs H W qrQ qrR * (Ss_mat Rs H W qrQ qrR)ᵀ = S := by
+    rw [a]; simp only [S, P, transpose_mul, Matrix.mul_assoc]
+  refine ⟨eS, ?_, ?_, g3⟩
+  · rw [← eS, g1]; simp only [P, transpose_mul, Matrix.mul_assoc]
+  · rw [g2]; simp only [P, Matrix.sub_mul, Matrix.one_mul, transpose_mul, Matrix.mul_assoc]
+end sqrt_correct_qr
 
 end C10
